@@ -40,6 +40,15 @@ type Box struct {
 	CampaignAt    uint8    `json:"campaign_only_at_node,omitempty"` // 0: every node may campaign
 	KindNames     []string `json:"driver_events"`
 	DevNames      []string `json:"deviation_events,omitempty"`
+
+	// Stated restrictions of the apply-lag boxes (all part of the box definition).
+	LagAt uint8 `json:"lag_only_at_node,omitempty"` // 0: every node may enter lag mode
+	// CampaignBy[t] lists the nodes that may campaign while their own term is t (i.e. for
+	// term t+1); a term without an entry is unrestricted.
+	CampaignBy   map[uint64][]int   `json:"campaign_only_by_nodes_at_term,omitempty"`
+	ConfVariants []uint16           `json:"-"` // nil: every conf-change variant
+	ConfNames    []string           `json:"conf_change_variants,omitempty"`
+	Restrictions []string           `json:"stated_restrictions,omitempty"`
 }
 
 func (b *Box) finish() *Box {
@@ -61,6 +70,9 @@ func (b *Box) finish() *Box {
 			}
 			b.DevNames = append(b.DevNames, n)
 		}
+	}
+	for _, v := range b.ConfVariants {
+		b.ConfNames = append(b.ConfNames, ccNames[v])
 	}
 	if b.Mode == "B" && b.Bud.Delays > 0 {
 		b.KindNames = append(b.KindNames, "release (of a delayed message, at quiescence)")
@@ -93,11 +105,19 @@ func (b *Box) candidates(c *cluster, dev int) []cand {
 	drivers := func(cost uint8, only uint32) {
 		for i := range c.nodes {
 			n := uint8(i + 1)
-			for _, k := range []uint8{evCampaign, evPropose, evHeartbeat, evCrash, evRestart, evCompact, evExpire} {
+			for _, k := range []uint8{evCampaign, evPropose, evHeartbeat, evCrash, evRestart, evCompact, evExpire, evLag, evApply, evUnlag} {
 				if k == evPropose && b.LeaderPropose && !c.nodes[i].isLeader() {
 					continue
 				}
 				if k == evCampaign && b.CampaignAt != 0 && n != b.CampaignAt {
+					continue
+				}
+				if k == evCampaign && b.CampaignBy != nil {
+					if who, ok := b.CampaignBy[c.nodes[i].status.Term]; ok && !hasNode(who, n) {
+						continue
+					}
+				}
+				if k == evLag && b.LagAt != 0 && n != b.LagAt {
 					continue
 				}
 				if b.has(k) && only&(1<<k) != 0 {
@@ -105,8 +125,14 @@ func (b *Box) candidates(c *cluster, dev int) []cand {
 				}
 			}
 			if b.has(evConf) && only&(1<<evConf) != 0 {
-				for v := uint16(0); v < ccVariants; v++ {
-					out = append(out, cand{Event{K: evConf, N: n, A: v}, cost})
+				if b.ConfVariants != nil {
+					for _, v := range b.ConfVariants {
+						out = append(out, cand{Event{K: evConf, N: n, A: v}, cost})
+					}
+				} else {
+					for v := uint16(0); v < ccVariants; v++ {
+						out = append(out, cand{Event{K: evConf, N: n, A: v}, cost})
+					}
 				}
 			}
 			if b.has(evIsolate) && only&(1<<evIsolate) != 0 {
@@ -195,8 +221,17 @@ func (b *Box) candidates(c *cluster, dev int) []cand {
 			out = append(out, cand{Event{K: evDup, A: s}, 1})
 		}
 	}
-	drivers(1, b.Devs&kinds(evCampaign, evPropose, evCrash, evRestart, evIsolate))
+	drivers(1, b.Devs&kinds(evCampaign, evPropose, evCrash, evRestart, evIsolate, evLag, evApply))
 	return out
+}
+
+func hasNode(l []int, n uint8) bool {
+	for _, x := range l {
+		if x == int(n) {
+			return true
+		}
+	}
+	return false
 }
 
 // ---------------------------------------------------------------------------- wire format
@@ -258,7 +293,8 @@ type rec struct {
 	hash     uint64
 	cost     uint8
 	flags    uint32
-	expanded bool // the worker already produced this state's successors (chain state)
+	backlog  uint8 // largest apply backlog (committed - applied) of a node in the target state
+	expanded bool  // the worker already produced this state's successors (chain state)
 }
 
 type workerViol struct {
@@ -395,6 +431,7 @@ func worker(tb []byte, progress func()) []byte {
 		w.u64(rc.hash)
 		w.u8(rc.cost)
 		w.u32(rc.flags)
+		w.u8(rc.backlog)
 		if rc.expanded {
 			w.u8(1)
 		} else {
@@ -496,7 +533,7 @@ func (x *expander) expand(s *taskState, ref int32, progress func()) stateRes {
 			if bytes.Equal(body, body2) {
 				continue // nothing but a budget counter changed: dominated by the parent
 			}
-			x.recs = append(x.recs, rec{parent: ref, ev: cd.ev, hash: h2, cost: cd.cost, flags: d.flags})
+			x.recs = append(x.recs, rec{parent: ref, ev: cd.ev, hash: h2, cost: cd.cost, flags: d.flags, backlog: uint8(d.maxBacklog())})
 			if inPlace && cd.cost == 0 {
 				next, h, body = d, h2, body2
 				nextRef = int32(len(x.recs) - 1)
@@ -614,6 +651,7 @@ func decodeResult(out []byte) ([]stateRes, []rec, []workerViol, simStats) {
 		rc.hash = r.u64()
 		rc.cost = r.u8()
 		rc.flags = r.u32()
+		rc.backlog = r.u8()
 		rc.expanded = r.u8() == 1
 	}
 	var ss simStats
